@@ -29,6 +29,7 @@ def boot(scratch):
 def plan(tier, seed):
     jobs = [dict(kind='lexeme', cls=c) for c in sorted(RISKY)]
     jobs.append(dict(kind='illegal'))
+    jobs.append(dict(kind='cli-e2e'))
     jobs += [dict(kind='corrupt', lexeme=n) for n in CORRUPT_CLASSES]
     for name in sorted(C12.library()):
         jobs.append(dict(kind='matrix', target=name))
@@ -101,6 +102,8 @@ def lexeme_harness(ctx, cfg):
 CORRUPT_CLASSES = ['identifier', 'integer', 'decimal', 'integer-exponent', 'double-quoted', 'single-quoted', 'unquoted-path', 'colon', 'comma', 'equal', 'lbrack', 'rbrack', 'lparen', 'rparen']
 TEMPLATES = ['A = Cmd(P = "x" {T})', 'A = Cmd(P = [1 {T}])', 'A = {T}(P = 1)', '{T} = Cmd(P = 1)', 'A = Cmd(P = 1) {T}', 'A = Cmd({T} = 1)', 'A = Cmd(P {T} 1)',
              'A = Cmd(P = [k: {T} {T}])', 'A {T}', '{T}', 'A = Cmd(P = 1,, {T})', 'A = Cmd(P = 7 {T})']
+LOAD_TEMPLATES = ['READ(InFileName = a.csv, InFieldName = {T})', 'CVTTOFUZZY(InFieldName = A, NewFieldName = {T})', 'READ(InFileName = {T}, InFieldName = [a, b])',
+                  'READ(InFileName = a.csv, InFieldName = [{T}])', 'A = Copy(InFieldName = {T}, Metadata = [k: {T}])', '{T}(InFieldName = A)']
 
 
 def corrupt_harness(ctx, cfg):
@@ -138,6 +141,22 @@ def corrupt_harness(ctx, cfg):
             lab = 'misplaced %s token: %r ends in a parse tree or a SyntaxError (%s)' % (cfg['lexeme'], text, oc)
             obs.append((lab, z3.BoolVal(not oc.startswith('escaped'))))
             groups[lab] = 'parser-escape at ' + cfg['lexeme']
+        # the same tokens in EEMS-2 / loader positions: from_source must answer with a program, SyntaxError or an MPilot error
+        from mpilot.program import Program
+        E = sys.modules['mpilot.exceptions']
+        for tmpl in LOAD_TEMPLATES:
+            text = tmpl.replace('{T}', wv)
+            try:
+                Program.from_source(text)
+                oc = 'loaded'
+            except (SyntaxError, E.MPilotError) as e:
+                oc = type(e).__name__
+            except Exception as e:      # noqa: B902
+                oc = 'escaped:' + type(e).__name__
+                bad.append((text, type(e).__name__))
+            lab = 'loading %r ends in a program, a SyntaxError or an MPilot error (%s)' % (text, oc)
+            obs.append((lab, z3.BoolVal(not oc.startswith('escaped'))))
+            groups[lab] = 'loader-escape at ' + cfg['lexeme']
     rec = {'kind': 'corrupt', 'lexeme': cfg['lexeme'], 'witnesses': ws, 'failures': bad[:5]}
     return {'outcome': '%d witnesses' % len(ws), 'obligations': obs, 'groups': groups, 'replay': rec, 'validated': True, 'concretise': lambda m, l: rec}
 
@@ -353,7 +372,21 @@ def errors_harness(ctx, cfg):
     return {'outcome': oc, 'obligations': obs, 'groups': groups, 'replay': rec, 'validated': True}
 
 
+def cli_e2e_harness(ctx, cfg):
+    """whole command-line runs on real files (layouts, line endings and faults of C11's CLI job): the tool must exit
+    non-zero with the message on stderr and let no exception escape"""
+    from . import C11
+    import mpvnodes  # noqa: F401
+    out = C11.cli_harness(ctx, cfg)
+    keep = [(l, t) for l, t in out['obligations'] if out['groups'][l] == 'cli-status']
+    out['obligations'] = keep
+    out['groups'] = {l: 'cli-e2e-status' for l, _ in keep}
+    return out
+
+
 def harness(ctx, cfg):
+    if cfg['kind'] == 'cli-e2e':
+        return cli_e2e_harness(ctx, cfg)
     return {'lexeme': lexeme_harness, 'corrupt': corrupt_harness, 'illegal': illegal_harness, 'matrix': matrix_harness, 'csv': csv_harness, 'errors': errors_harness}[cfg['kind']](ctx, cfg)
 
 
